@@ -36,6 +36,19 @@ def generate(rng, tier):
     cases = []
     for t in [b"@ignore\n+BUILD\nbin/foo\n@ignore\n@ignore\nx\ny\n@ignore\n", b"@ignore\n@cwd /x\nf\ng\n", b"a\n@cwd /p/\nb\n@cwd q\nc\n", b""]:
         cases.append(Case("pl.query", [enc(t)], meta={"nt": True, "text": t}))
+    # only '/' ends a directory: @cwd arguments ending in every other ASCII punctuation character and in bytes >= 0x80
+    for last in list(range(33, 48)) + list(range(58, 65)) + list(range(91, 97)) + list(range(123, 127)) + [0x85, 0xA0, 0xE9, 0xFF]:
+        for d in (b"/opt/pkg", b"C:", b""):
+            t = b"@cwd " + d + bytes([last]) + b"\nbin/foo\n@ignore\n+CONTENTS\nlib/bar\n@cwd /other\nshare/x\n"
+            cases.append(Case("pl.query", [enc(t)], meta={"nt": True, "text": t}))
+    # long runs of @ignore (what a counter in a small integer would lose track of at 256 / 65536), with and without
+    # other commands in between, followed by files
+    for N in (254, 255, 256, 257, 511, 512, 513, 65535, 65536, 65537):
+        for sep in (b"", b"@comment x\n"):
+            if N > 1000 and sep:
+                continue
+            t = b"bin/first\n" + (b"@ignore\n" + sep) * N + b"+CONTENTS\nbin/last\n@ignore\n+DESC\nbin/end\n"
+            cases.append(Case("pl.query", [enc(t)], meta={"nt": True, "text": t}))
     for _ in range(n):
         ls = [valid_line(rng) for _ in range(rng.choice([1, 3, 5, 8, 12]))]
         t = b"\n".join(ls) + b"\n"
